@@ -176,7 +176,12 @@ class ValueAxis(Saveable):
         """
 
         # nearest smaller neighbor index
-        nsni = int(numpy.floor((val-self.start)/self.step))
+        xval = (val-self.start)/self.step
+        nsni = int(numpy.floor(xval))
+        # a value which equals a point of the axis up to rounding error
+        # belongs to that point, not to its lower neighbor
+        if abs(xval - numpy.round(xval)) < 1.0e-9:
+            nsni = int(numpy.round(xval))
 
         # if n0 is within bounds calculate distance
         # from the lower neighbor
